@@ -315,7 +315,17 @@ def rule_r3(p, res):
     for f in tj:
         written |= _dict_literal_keys(f.node) | _subscript_keys(f.node)
     written -= {"LJSON"}
+    # the parser and the private helpers of its module that it calls
+    from ..calls import CallCtx as _Ctx
+    helpers_of_pr = []
+    cx = _Ctx(p, pr, None)
+    for k in calls_in(pr.node, include_nested=True):
+        for t_ in cx.resolve_call(k):
+            if t_.func.cls is None and t_.func.module is pr.module and t_.func.name.startswith("_") and t_.func is not pr and t_.func not in [h for h, _ in helpers_of_pr]:
+                helpers_of_pr.append((t_.func, k))
     read = _subscript_keys(pr.node) | _subscript_keys(im.node)
+    for h, _k in helpers_of_pr:
+        read |= _subscript_keys(h.node)
     want = {"version", "groups", "labels", "label", "mask", "landmarks", "points", "connectivity"}
     r.check(read <= written, pr, pr.node, "the v3 parser reads keys %s that the exporter never writes" % sorted(read - written), {"read": sorted(read), "written": sorted(written)})
     r.check(want <= written, ex, ex.node, "the exporter / tojson methods no longer write %s" % sorted(want - written))
@@ -357,13 +367,30 @@ def rule_r3(p, res):
     r.check(any(kwarg(c, "object_pairs_hook") is not None and norm(kwarg(c, "object_pairs_hook")) == "OrderedDict" for c in calls_in(im.node)), im, im.node,
             "the importer must load JSON objects as ordered mappings")
     d = Defs(pr.node)
-    v = d.single("labels_to_mask")
-    r.check(v is not None and norm(v) == "OrderedDict()", pr, pr.node, "parsed labels must be collected in an ordered mapping, in file order")
+    # the mapping that receives  X[label['label']] = mask  (in the parser or in a helper it calls) is created as an OrderedDict
+    created = []
+    for fn_ in [pr] + [h for h, _k in helpers_of_pr]:
+        dd = Defs(fn_.node)
+        for n in walk_own(fn_.node):
+            if isinstance(n, ast.Assign) and isinstance(n.targets[0], ast.Subscript) and norm(n.targets[0].slice) == "label['label']" and isinstance(n.targets[0].value, ast.Name):
+                created += [norm(v_) for k_, v_, st_ in dd.of(n.targets[0].value.id) if k_ == "assign" and isinstance(v_, ast.AST) and not (isinstance(v_, ast.Call) and (dotted(v_.func) or "") in [h.name for h, _k in helpers_of_pr])]
+    need(created, "C16.R3: the mapping that collects the parsed labels was not found")
+    r.check(all(c_ == "OrderedDict()" for c_ in created), pr, pr.node, "parsed labels must be collected in an ordered mapping, in file order (found %s)" % created)
     loops = [n for n in walk_own(pr.node) if isinstance(n, ast.For) and norm(n.iter) == "lms_dict_group['labels']"]
+    for h, k_ in helpers_of_pr:
+        from ..astutil import bind_call
+        try:
+            bound_ = bind_call(k_, h)
+        except Exception:
+            bound_ = {}
+        for n in walk_own(h.node):
+            if isinstance(n, ast.For) and isinstance(n.iter, ast.Name) and n.iter.id in bound_ and norm(bound_[n.iter.id]) == "lms_dict_group['labels']":
+                loops.append(n)
     r.check(bool(loops), pr, pr.node, "labels must be parsed in list order")
     # the mask indices written are the ones set on import
     r.check("mask.nonzero()[0].tolist()" in norm(lt.node), lt, lt.node, "a label's mask must be exported as the list of its point indices")
-    r.check("mask[label['mask']] = True" in norm(pr.node), pr, pr.node, "a parsed label must switch on exactly the listed indices")
+    closure_text = norm(pr.node) + "".join("\n" + norm(h.node) for h, _k in helpers_of_pr)
+    r.check("mask[label['mask']] = True" in closure_text, pr, pr.node, "a parsed label must switch on exactly the listed indices")
     # edges: exported from .edges, imported through init_from_edges
     r.check("self.edges.tolist()" in norm(tj[1].node), tj[1], tj[1].node, "connectivity must be exported from the edge list")
     r.check(any(isinstance(c.func, ast.Attribute) and c.func.attr == "init_from_edges" for c in calls_in(pr.node)), pr, pr.node, "parsed connectivity must be used as an edge list")
